@@ -243,6 +243,13 @@ func (e *Env) evalIdent(name string) (Val, error) {
 	if v, ok := e.vars[name]; ok {
 		return v, nil
 	}
+	// inside old(): a local that is not a parameter has no entry value; its current value is meant
+	// (only the heap is the entry heap)
+	if e.locals != nil && e.inOld {
+		if v, ok := e.locals(name); ok {
+			return v, nil
+		}
+	}
 	if e.localsAfter != nil && !e.inOld {
 		if v, ok := e.localsAfter(name); ok {
 			return v, nil
@@ -731,6 +738,17 @@ func (e *Env) evalCall(t *ECall) (Val, error) {
 			c := *e
 			c.inOld = true
 			return Val{T: fmt.Sprintf("(and (not (= %[1]s 0)) (= (refroot %[1]s) %[1]s) (= (refkind %[1]s) 0) (not (select %[2]s %[1]s)) (select %[3]s %[1]s))", ref, c.heap(allocComp), e.heap(allocComp)), Ty: types.Typ[types.Bool]}, nil
+		case "sameArray":
+			// sameArray(a, b): two slices share their backing array
+			a, err := e.Eval(t.Args[0])
+			if err != nil {
+				return Val{}, err
+			}
+			b, err := e.Eval(t.Args[1])
+			if err != nil {
+				return Val{}, err
+			}
+			return Val{T: fmt.Sprintf("(= (s.base %s) (s.base %s))", a.T, b.T), Ty: types.Typ[types.Bool]}, nil
 		case "toInt64":
 			v, err := e.Eval(t.Args[0])
 			if err != nil {
